@@ -7,6 +7,7 @@ import (
 	"go/types"
 	"os"
 	"path/filepath"
+	"regexp"
 	"sort"
 	"strings"
 
@@ -546,6 +547,57 @@ func (vc *VC) smtLightPath(i, k int) string {
 	} else {
 		sb.WriteString(fmt.Sprintf("(assert (and %s (not %s)))\n", o.Guard, o.Cond))
 	}
+	sb.WriteString("(check-sat)\n")
+	return sb.String()
+}
+
+var heapVerRe = regexp.MustCompile(`([A-Za-z][A-Za-z0-9_.]*)[@!][0-9]+`)
+
+// smtFocused renders obligation i keeping a quantified path hypothesis only when it speaks about a heap that the
+// goal mentions (or about allocation). Dropping hypotheses is sound; frame goals need nothing else.
+func (vc *VC) smtFocused(i int) string {
+	vc.emitLemmaAxioms()
+	o := vc.obls[i]
+	want := map[string]bool{"alloc": true}
+	for _, m := range heapVerRe.FindAllStringSubmatch(o.Cond, -1) {
+		want[m[1]] = true
+	}
+	relevant := func(t string) bool {
+		for k := range vc.keepHyps {
+			if strings.Contains(t, k) {
+				return true
+			}
+		}
+		for _, m := range heapVerRe.FindAllStringSubmatch(t, -1) {
+			if m[1] != "alloc" && m[1] != "R" && want[m[1]] {
+				return true
+			}
+		}
+		// pure allocation facts (monotonicity)
+		ms := heapVerRe.FindAllStringSubmatch(t, -1)
+		onlyAlloc := len(ms) > 0
+		for _, m := range ms {
+			if m[1] != "alloc" && m[1] != "R" && !strings.HasPrefix(m[1], "R.") {
+				onlyAlloc = false
+			}
+		}
+		return onlyAlloc
+	}
+	var sb strings.Builder
+	for _, l := range vc.out {
+		for _, ln := range strings.Split(l, "\n") {
+			t := strings.TrimSpace(ln)
+			if strings.HasPrefix(t, "(assert (=> R") && (strings.Contains(t, "(forall ") || strings.Contains(t, "(exists ")) && !relevant(t) {
+				f := strings.Fields(t)
+				if len(f) >= 5 && f[3] == "(and" {
+					sb.WriteString(fmt.Sprintf("(assert (=> %s %s))\n", f[2], strings.TrimRight(f[4], ")")))
+					continue
+				}
+			}
+			sb.WriteString(ln + "\n")
+		}
+	}
+	sb.WriteString(fmt.Sprintf("(assert (and %s (not %s)))\n", o.Guard, o.Cond))
 	sb.WriteString("(check-sat)\n")
 	return sb.String()
 }
